@@ -425,4 +425,6 @@ func runC04(r *mon.Run) {
 			}
 		}
 	})
+	// results that are functions of the arguments alone do not depend on the process-wide system entropy stream
+	runDegradedEntropy(r, "c04", r.N(40, 600), "sm", "msm")
 }
